@@ -10,6 +10,7 @@ from . import lincommon as lc
 
 PROP = "C20"
 MONITORS = ("WF",)
+HOSTILE = ('special',)
 ANCHORS = [("experimental/truncated_measure.py", "TruncatedGaussianMeasure.__call__"),
            ("experimental/truncated_measure.py", "TruncatedGaussianMeasure._expectation_integral"),
            ("experimental/truncated_measure.py", "TruncatedGaussianMeasure._expectation_x"),
